@@ -19,7 +19,7 @@ from . import common
 
 NAME = "U-frame"
 TOOL = "verus"
-PROPS = ["C12", "C14", "C16", "C02", "C18"]
+PROPS = ["C12", "C14", "C16", "C02", "C18", "C03"]
 RLIMIT = 10
 TRUSTED = ["verus 0.2026.09.13 + z3 (the assertions are literal)", "a field of self is written only by code that names it: scan of the function's text and of the helpers it calls in the same impl"]
 
@@ -32,6 +32,10 @@ FRAMES = [
      "compile_quoted_string neither unwraps the parse of the marker's number nor indexes the literal table with it"),
     ("src/cpp.rs", None, "process", [r"define_regex\s*\.captures\([^)]*\)\s*\.unwrap\(\)"], "C16", "define-without-a-name-is-an-error",
      "process() does not unwrap the match of the text after #define"),
+    ("src/compile.rs", "CompilerState", "compile_statement_ex", [r"parse_calc\([^;]*\)\?\s*as\s+u32"], "C16,C03", "asm-size-checked-not-cast",
+     "the size written in an asm statement is not cast from the calculator's i32 unchecked (a negative size becomes 4 billion bytes and overflows the branch distances)"),
+    ("src/generate/generate_statements.rs", "GeneratorState", "generate_expr", [r"-?\bl\s*\*\s*256\b"], "C16", "high-byte-offset-computed-without-overflow",
+     "generate_expr does not multiply the constant of `(arr >> 8) + k` by 256 unchecked"),
 ]
 
 
@@ -46,7 +50,10 @@ def candidates(f):
     """texts that made the compiler panic: each must be answered by output or by a located error"""
     return [{"source": src, "args": ["-O1"], "expect": {"panic": False}, "note": note} for src, note in (
         ("char *p;\nvoid main() { p = @7@; }\n", "a literal marker written in the source"), ("char *p;\nvoid main() { p = @-1@; }\n", "a negative literal marker"),
-        ("#define 123\nvoid main() { }\n", "#define without a name"), ("#define\nvoid main() { }\n", "#define alone"))]
+        ("#define 123\nvoid main() { }\n", "#define without a name"), ("#define\nvoid main() { }\n", "#define alone"),
+        ("unsigned char i;\nvoid main() { asm(\"nop\", -1); if (i) i = 1; }\n", "negative size of inline assembly before a branch"),
+        ("char arr[4]; unsigned char r;\nvoid main() { r = (arr >> 8) + 16777216; }\n", "(arr >> 8) + 2^24"), ("char arr[4]; unsigned char r;\nvoid main() { r = (arr >> 8) - 16777216; }\n", "(arr >> 8) - 2^24"),
+        ("char a[4];\nvoid main() { X = a[\"abc\" + 1]; }\n", "a literal plus a constant as a subscript"))]
 
 
 def build(repo):
